@@ -216,8 +216,10 @@ class boolean(Command):
 
     def invoke(self, tex):
         a = self.parse(tex)
-        if a['name'] in self.ownerDocument.context:
-            if self.ownerDocument.context[a['name']].state:
+        # \boolean{name} tests the switch \ifname
+        name = 'if' + a['name']
+        if name in self.ownerDocument.context:
+            if self.ownerDocument.context[name].state:
                 return [_true()]
             else:
                 return [_false()]
@@ -294,7 +296,9 @@ class newboolean(Command):
     args = 'name:str'
 
     def invoke(self, tex):
-        self.ownerDocument.context.newif(self.parse(tex)['name'])
+        # As in LaTeX, the boolean `name` is the switch \ifname with its
+        # setters \nametrue and \namefalse (not a macro called \name)
+        self.ownerDocument.context.newif('if' + self.parse(tex)['name'])
 
 
 class provideboolean(newboolean):
@@ -307,10 +311,11 @@ class setboolean(Command):
 
     def invoke(self, tex):
         a = self.parse(tex)
-        if a['name'] in self.ownerDocument.context:
+        name = 'if' + a['name']
+        if name in self.ownerDocument.context:
             if a['value'].lower() == 'true':
-                self.ownerDocument.context[a['name']].setTrue()
+                self.ownerDocument.context[name].setTrue()
             elif a['value'].lower() == 'false':
-                self.ownerDocument.context[a['name']].setFalse()
+                self.ownerDocument.context[name].setFalse()
         else:
             raise ValueError("Boolean %s not defined" % a['name'])
